@@ -444,7 +444,7 @@ class Translator:
             raise Unsupported('not a function')
         pyargs = [a.arg for a in node.args.args if a.arg not in ('self', 'cls')]
         declared = spec['args']
-        if not ({'expr_of', 'arg_of', 'if_test'} & set(spec)) and [a for a, _ in declared] != pyargs:
+        if not ({'expr_of', 'arg_of', 'if_test', 'kwarg_of'} & set(spec)) and [a for a, _ in declared] != pyargs:
             raise Unsupported(f'{spec["py"]}: parameters are now {pyargs}, kernel table says {[a for a, _ in declared]}')
         cx = Ctx(dict(declared), self.funcs, self.consts, spec.get('selfattrs', {}), spec.get('raises', False),
                  self.pyctr_errs)
@@ -458,8 +458,12 @@ class Translator:
             params.append(('self_' + a.lstrip('_'), spec['selfattrs'][a]))
         for a, ty in declared:
             params.append((self.vname(a), ty))
-        if 'arg_of' in spec or 'if_test' in spec:
-            if 'arg_of' in spec:
+        if 'arg_of' in spec or 'if_test' in spec or 'kwarg_of' in spec:
+            if 'kwarg_of' in spec:
+                fn, kw = spec['kwarg_of']
+                found = [k.value for n in ast.walk(node) if isinstance(n, ast.Call) and isinstance(n.func, ast.Name)
+                         and n.func.id == fn for k in n.keywords if k.arg == kw]
+            elif 'arg_of' in spec:
                 found = [n.args[0] for n in ast.walk(node)
                          if isinstance(n, ast.Call) and isinstance(n.func, ast.Attribute) and n.func.attr == spec['arg_of']
                          and n.args and not isinstance(n.args[0], ast.Name)]
